@@ -209,7 +209,7 @@ func runWireCase(reg Registry, rec *Recorder, ops []OpInfo, client reflect.Value
 	rec.Emit(Event{"ev": "Call", "case": wc.ID, "op": wc.Op, "sent": ProjectParams(params, false), "inject": wc.InjectStatus})
 	cur.caseID = wc.ID
 	cur.inject = wc.InjectStatus
-	script := Script{Parse: true, ReadBody: true, Resp: wc.RespType, Random: true, Seed: wc.RespSeed, Code: 200 + int(wc.RespSeed%300)}
+	script := Script{Parse: true, ReadBody: true, Resp: wc.RespType, Random: true, Seed: wc.RespSeed, Code: 210 + int(wc.RespSeed%80)} // never a documented status of the universe (200, 201, 404)
 	if wc.DefaultCode > 0 {
 		script.Default, script.Code = true, wc.DefaultCode
 	}
